@@ -1,2 +1,3 @@
 #!/bin/bash
-for p in "$@"; do python3 lib/seedtest.py $p 2>&1 | tail -3; done
+# seedbatch.sh <id>[:<check>] ...  runs lib/seedtest.py for each seeded change
+for x in "$@"; do id=${x%%:*}; chk=${x#*:}; [ "$chk" = "$x" ] && chk=""; python3 lib/seedtest.py $id $chk 2>&1 | tail -2; done
